@@ -271,6 +271,9 @@ class PEP8Normalizer(ErrorFinder):
             self._implicit_indentation_possible = True
         yield
         if typ == 'suite':
+            if self._indentation_tos.type == IndentationTypes.BACKSLASH:
+                # A backslash at the end of broken code is never closed.
+                self._indentation_tos = self._indentation_tos.parent
             assert self._indentation_tos.type == IndentationTypes.SUITE
             self._indentation_tos = self._indentation_tos.parent
             # If we dedent, no lines are needed anymore.
